@@ -134,6 +134,62 @@ def run(run):
         with env.quiet():
             r.close()
     run.extra['files'] = [c.label for c in cases]
+    accessor_calls(run, cases)
+
+
+ACC = {'trace': 'get_trace', 'header': 'gen_trace_header', 'depth_slice': 'read_zslice'}
+
+
+def accessor_calls(run, cases, only=None):
+    """the segyio-style accessors take ordinals with Python's meaning: -len <= i < len is an item, anything else IndexError"""
+    import seismic_zfp
+    calls, meta = [], []
+    for fi, fc in enumerate(cases):
+        F = fc.F
+        tc = readcalls.tracecount(F)
+        for acc, op in ACC.items():
+            if acc == 'depth_slice' and F['dim'] == 2:
+                continue
+            n = F['n'][2] if acc == 'depth_slice' else tc
+            for i in (-n - 1, -n - 2, -2 * n, -2 * n - 1, -10 * n, n, n + 1, 3 * n, -1, -n, -n + 1):
+                if only is not None and (fc.label, acc, i) != only:
+                    continue
+                norm = i + n if -n <= i < 0 else i
+                calls.append((fi, op, [norm, readcalls.NONE, readcalls.NONE] if op == 'get_trace' else [norm]))
+                meta.append((fi, acc, i, n))
+    answers = session.eval_calls(cases, calls, run, model=False)
+    emus = {}
+    try:
+        for (fi, acc, i, n), (_, op, a), ans in zip(meta, calls, answers):
+            fc = cases[fi]
+            if fi not in emus:
+                with env.quiet():
+                    emus[fi] = seismic_zfp.open(fc.path)
+            case = {'file': fc.label, 'op': 'emu.' + acc, 'args': [i], 'len': n}
+            run.case(case)
+            with env.quiet():
+                try:
+                    v = getattr(emus[fi], acc)[i]
+                    out = ('header', dict(v)) if acc == 'header' else ('value', np.asarray(v))
+                except BaseException as e:
+                    if isinstance(e, (KeyboardInterrupt, SystemExit, MemoryError)):
+                        raise
+                    out = ('raise', type(e).__name__, [c.__name__ for c in type(e).__mro__])
+            inside = -n <= i < n
+            if not inside:
+                okk = out[0] == 'raise' and 'IndexError' in out[2]
+                run.check(okk, f'C14.no-unreal-data[emu.{acc}]', case, readcalls.describe(out)[:120], 'IndexError')
+            else:
+                okk, detail = readcalls.compare(out, ans['alts'], fc.ref,
+                                                header_of=lambda t, fc=fc, ans=ans: fc.header([x for x in ans['alts'] if x['kind'] == 'header'][0]['grid']))
+                run.check(okk, f'C14.no-unreal-data[emu.{acc}]', case, detail, 'the item Python indexing denotes')
+    finally:
+        for e in emus.values():
+            with env.quiet():
+                try:
+                    e.__exit__(None, None, None)
+                except Exception:
+                    pass
 
 
 def replay(run, rep):
@@ -146,6 +202,9 @@ def replay(run, rep):
         cases = [c for c in session.load_files(crafted_files(run, 'thorough') + crafted_2d(run, 'thorough'), run)
                  if c.label == case['file']]
     fc = cases[0]
+    if case['op'].startswith('emu.'):
+        accessor_calls(run, [fc], only=(fc.label, case['op'][4:], case['args'][0]))
+        return
     ans = session.eval_calls([fc], [(0, case['op'], case['args'])], run)[0]
     with env.quiet():
         r = SgzReader(fc.path)
